@@ -294,20 +294,25 @@ def vhdx_family():
         check('vhdx/verdict-independent-of-chunking', len(results) == 1,
               'C01', detail=(name, [(k, v[:5]) for k, v in
                                     list(results.items())[:3]]))
-        got = list(results)[0]
-        if want[0] == 'error':
+        for got in list(results):
+          if want[0] == 'error':
             check('vhdx/malformed-image-is-an-error', got[0] == 'error'
                   or (got[1] is False and got[3] == 'refused'), 'C01 C02',
                   detail=(name, got))
-        elif want[0] == 'size-error':
+          elif want[0] == 'size-error':
             pass
-        else:
+          else:
+            if got[0] == 'error':
+                check('vhdx/well-formed-image-is-not-an-error', False,
+                      'C01 C07', detail=(name, got, results[got][:5]))
+                continue
             check('vhdx/format-match', got[0] == want[0], 'C01 C03',
                   detail=(name, got, want))
             check('vhdx/complete', got[1] == want[1], 'C01',
                   detail=(name, got, want))
             check('vhdx/virtual-size-is-the-declared-size',
-                  got[2] == want[2], 'C07 C01', detail=(name, got, want))
+                  got[2] == want[2], 'C07 C01', detail=(name, got, want,
+                                                       results[got][:5]))
             check('vhdx/safety', got[3] == ('ok' if (want[0] and want[1])
                                             else 'refused'), 'C02 C01',
                   detail=(name, got, want))
@@ -491,31 +496,37 @@ def vmdk_sparse_family():
         check('vmdk/verdict-independent-of-chunking', len(results) == 1,
               'C01', detail=(name, [(k, v[:5]) for k, v in
                                     list(results.items())[:3]]))
-        got = list(results)[0]
-        if want[0] == 'error':
-            check('vmdk/malformed-header-is-an-error', got[0] == 'error',
-                  'C01 C02', detail=(name, got))
-            continue
-        if len(want) == 2:
-            continue
-        if len(want) == 3:
-            check('vmdk/incomplete-stream', got[0] != 'error'
-                  and got[1] is False and got[2] == 0
-                  and got[3] == 'refused', 'C01 C02 C07',
-                  detail=(name, got, want))
-            continue
-        match, complete, size, fails = want
-        check('vmdk/format-match', got[0] == match, 'C01 C03',
-              detail=(name, got, want))
-        check('vmdk/complete', got[1] == complete, 'C01',
-              detail=(name, got, want))
-        check('vmdk/virtual-size-is-capacity-x-512', got[2] == size,
-              'C07 C01', detail=(name, got, want))
-        if complete:
-            safety = 'ok' if not fails else 'failed:' + ','.join(
-                sorted(fails))
-            check('vmdk/safety', got[3] == safety, 'C02 C01',
-                  detail=(name, got, want))
+        for got in list(results):
+            vmdk_compare(name, got, want, results[got][:5])
+
+
+def vmdk_compare(name, got, want, sizes):
+    if want[0] == 'error':
+        check('vmdk/malformed-header-is-an-error', got[0] == 'error',
+              'C01 C02', detail=(name, got))
+        return
+    if len(want) == 2:
+        return
+    if got[0] == 'error':
+        check('vmdk/well-formed-image-is-not-an-error', False, 'C01 C07',
+              detail=(name, got, sizes))
+        return
+    if len(want) == 3:
+        check('vmdk/incomplete-stream', got[1] is False and got[2] == 0
+              and got[3] == 'refused', 'C01 C02 C07',
+              detail=(name, got, want, sizes))
+        return
+    match, complete, size, fails = want
+    check('vmdk/format-match', got[0] == match, 'C01 C03',
+          detail=(name, got, want))
+    check('vmdk/complete', got[1] == complete, 'C01',
+          detail=(name, got, want, sizes))
+    check('vmdk/virtual-size-is-capacity-x-512', got[2] == size,
+          'C07 C01', detail=(name, got, want, sizes))
+    if complete:
+        safety = 'ok' if not fails else 'failed:' + ','.join(sorted(fails))
+        check('vmdk/safety', got[3] == safety, 'C02 C01',
+              detail=(name, got, want, sizes))
 
 
 def patch_desc_num(img, desc_num):
